@@ -421,7 +421,7 @@ func runC18(c *core.Ctx) error {
 		return err
 	}
 	avoid := c.KF.Avoid()
-	total := c.Pick(150, 5000)
+	total := c.Pick(240, 5000)
 	chunks := c.Pick(3, 25)
 	c.Ev.Coverage.Rule = "cases = valid schema from the OpenAPI profile (nested types, recursive types, several services per file, second files, every annotation-driven schema shape, rules, headers, default and explicit routes) x format in {absent, yaml, yml, json}; each emitted document is parsed with parsers independent of the plugin (go.yaml.in/yaml/v4, encoding/json) and checked: openapi 3.1.x and required members, every $ref resolves, template variables <-> required path parameters one-to-one, (name,in) unique per operation, operationId unique, one operation per RPC, a component schema for every reachable message whose properties are the message's JSON names, one document per service named after it, default/yaml/yml identical, YAML == JSON as trees. Non-trivial = schema with a nested type, >= 2 services, a second file or a recursive type; distinct by schema."
 	prof := schema.ProfileOpenAPI(avoid)
